@@ -32,7 +32,7 @@ func (c16) Info(t core.Tier) core.Info {
 	}
 }
 
-func (c16) NumCases(t core.Tier) int { return tierN(t, 2000, 80000) }
+func (c16) NumCases(t core.Tier) int { return tierN(t, 5000, 150000) }
 
 // the destination universe: every field any schema of a history may name
 type c16Dest struct {
